@@ -107,6 +107,20 @@ chk('C10',
     COMMON_NOTE, 'bounded-exhaustive derivation exploration of overlapping fragment descriptions; model + differential oracle',
     'DESIGN.md section 4 C10')
 
+chk('C11',
+    'Every (base string <=3-4 nodes, fragment library) of the bounded family x every decoration: 1-2 fragment-less nodes as prefix, zero-order branch after any node, suffix, with '
+    'an additional zero-order ring bond to any other node, and extra zero-order ring bonds between any two non-adjacent real nodes; the decorated resolution must be identical (keys, '
+    'attributes, edges) to the undecorated one after mapping coarse keys, every real coarse node owns the same atoms, virtual nodes own none; the negative family (same node attached with order 1-2) must raise SyntaxError.',
+    COMMON_NOTE, 'bounded-exhaustive enumeration of decorations of resolvable strings; differential oracle on the real resolver',
+    'DESIGN.md section 4 C11')
+chk('C12',
+    '(a,b) every case of the base graph x library x convention family: numbering invariants, identical canonical dumps for every permutation of the fragment definitions and through '
+    'the three constructors with the library dump unchanged; batches of ~5000 strings re-resolved in fresh interpreters under 4-6 PYTHONHASHSEED values and compared digest by digest; '
+    '(c) breadth-first exploration (depth 3-4) of histories of constructor / resolve / read_fragments / sampler calls sharing one fragment library object: every output equals the single-call '
+    'reference and the library is never modified. One recorded defect (atom names next to shared atoms) is reported as KNOWN-FINDING.',
+    COMMON_NOTE, 'bounded-exhaustive configuration enumeration + explicit-state (BFS) history exploration + fresh-process references per hash seed',
+    'DESIGN.md section 4 C12')
+
 NOT_YET = {}
 
 def main():
